@@ -10,7 +10,7 @@ import sys
 from fractions import Fraction
 
 from harness.build import assert_scratch_import
-from harness.f64 import fkey, tkey, pred, succ
+from harness.f64 import fkey, tkey, pred, succ, exact, ulp_exact
 
 assert_scratch_import()
 from jellyfysh.base.time import Time, inf as TINF  # noqa: E402
@@ -114,7 +114,7 @@ def table(path):
 
 
 def value(t):
-    return Fraction(t.quotient) + Fraction(t.remainder)
+    return exact(t.quotient) + exact(t.remainder)
 
 
 def finite(t):
@@ -145,9 +145,10 @@ def trace(seed, n, path):
         rec = dict(op="add", t=tkey(t), d=fkey(d), dneg=int(d < 0), res=tkey(res),
                    qint=int(finite(res) and res.quotient == math.floor(res.quotient)), err2=0)
         if finite(res):
-            s = t.remainder + d                       # the one rounding the implementation performs
-            half = Fraction(math.ulp(s)) / 2 if s != 0 else Fraction(5e-324)
-            diff = abs(value(res) - (value(t) + Fraction(d)))
+            # the one rounding the implementation performs is that of remainder + displacement: half a unit in the last place
+            # of the exact sum (exact rationals from bit patterns; no float operation of the harness is involved)
+            half = ulp_exact(exact(t.remainder) + exact(d)) / 2
+            diff = abs(value(res) - (value(t) + exact(d)))
             rec["err2"] = int(math.ceil(diff / half)) if diff else 0
             rec["err2"] = min(rec["err2"], 1000000)
         else:
@@ -174,6 +175,11 @@ def trace(seed, n, path):
     norm = [t for t in times if 0.0 <= t.remainder < 1.0]
     pairs = [(a, b) for a in norm[:len(quots) * len(rems)] for b in rnd.sample(norm, 6)]
     pairs += [(a, a) for a in norm[:40]]
+    # neighbours in the list of remainders (denormals, values next to 1/2, 3/4, 1) at every quotient, both ways round
+    srt = sorted(set(rems), key=lambda x: exact(x))
+    for q in quots:
+        for r1, r2 in zip(srt, srt[1:]):
+            pairs += [(Time(q, r1), Time(q, r2)), (Time(q, r2), Time(q, r1))]
     pairs += [(Time(q, one_m), Time(q + 1.0, 0.0)) for q in quots] + [(Time(q + 1.0, 0.0), Time(q, one_m)) for q in quots]
     def updated(t):
         o = Time(t.quotient + 2.0, 0.5) if math.isfinite(t.quotient) else Time(0.0, 0.5)
@@ -185,12 +191,12 @@ def trace(seed, n, path):
              eq=int(a == b), ne=int(a != b), rat=int(value(a) < value(b)))
         d = a - b
         exact_d = value(a) - value(b)
-        unit = Fraction(math.ulp(max(1.0, abs(float(exact_d)))))
-        emit(op="sub", a=tkey(a), b=tkey(b), ulps=min(1000000, int(math.ceil(abs(Fraction(d) - exact_d) / unit))))
+        unit = ulp_exact(max(Fraction(1), abs(exact_d)))
+        emit(op="sub", a=tkey(a), b=tkey(b), ulps=min(1000000, int(math.ceil(abs(exact(d) - exact_d) / unit))))
     for x in [0.0, 5e-324, 0.1, one_m, 1.0, succ(1.0), 2.5, 1e15 + 0.5, 2.0 ** 52, 2.0 ** 52 + 1, 2.0 ** 60, 1e300] + \
             [rnd.random() * 10.0 ** rnd.randint(-30, 18) for _ in range(n)]:
         res = Time.from_float(x)
-        emit(op="ff", x=fkey(x), res=tkey(res), exact=int(finite(res) and value(res) == Fraction(x)
+        emit(op="ff", x=fkey(x), res=tkey(res), exact=int(finite(res) and value(res) == exact(x)
                                                          and res.quotient == math.floor(res.quotient)))
     res = Time.from_float(INF)
     emit(op="addinf", t=tkey(res), res=tkey(res))
